@@ -67,6 +67,11 @@ Inductive case :=
 | CloseCase (client sentFirstPacket : bool) (reqs : list (Z * Z * bool))
             (obsCause obsApi : Z * Z) (sentClose blackhole : bool) (peer : option (Z * Z)) (routing : Z)
 | ClosedConnCase (start : Z) (replies : list bool)
+| FanoutCase (streams : list (Z * bool * Z * Z * Z * bool * Z * Z)) (maps : list Z)
+  (* unit-level fan-out over stream states: per stream (receive state, Read parked before the close, its result,
+     result of a Read/Peek issued after the close, send state, Write parked, its result, result of a later Write);
+     maps: results of the parked AcceptStream / OpenStreamSync / ReceiveDatagram calls.
+     result classes: 0 the cause, 1 EOF, 2 stream error, 3 closed stream, 4 progress, 5 parked, -1 no call *)
 | HistCase (pre : snap) (ops : list op) (post : snap) (closed : Z)   (* closed: 0 open, 2 handshake timeout, 3 idle timeout *)
 | EarlyExitCase (routing : Z) (apiClosed : option bool).  (* Dial whose StartHandshake fails: what is left behind
                                                              (apiClosed only observable while the Conn is still registered) *)
@@ -77,8 +82,31 @@ Inductive obs :=
 | ParamsObs (idle kai : Z)
 | CloseObs (cause api : Z * Z) (sentClose : bool) (peer : option (Z * Z)) (routing : Z)
 | ClosedConnObs (replies : list bool)
+| FanoutObs (streams : list (bool * Z * Z * bool * Z * Z)) (maps : list Z)
 | HistObs (fields : option (Z * Z * bool * bool * Z * Z * Z))
 | EarlyExitObs (routing : Z) (apiClosed : bool).
+
+(** stream states as set up by the harness (harness/drv/runloop_fanout.go) *)
+Definition rstream_of (st : Z) : rstream :=
+  let mk eof cerr c d := {| r_eof := eof; r_cancelErr := cerr; r_cancel := c; r_shutdown := None; r_data := d |} in
+  match st with
+  | 1 | 8 => mk false true false false  (* RESET_STREAM_AT pending: cancelErr set, not effective *)
+  | 2 | 3 | 4 => mk false true true false
+  | 6 => mk true false false false
+  | 7 => mk false false false true
+  | _ => mk false false false false      (* open; FIN with a gap *)
+  end.
+Definition sstream_of (st : Z) : sstream :=
+  let mk r f room := {| s_reset := r; s_shutdown := None; s_finished := f; s_room := room |} in
+  match st with
+  | 11 | 12 => mk true false false
+  | 13 => mk false true false
+  | 14 => mk false false true
+  | _ => mk false false false            (* Write of more than fits *)
+  end.
+Definition res_code (r : res) : Z :=
+  match r with RErr _ => 0 | REOF => 1 | RStreamErr => 2 | RClosedStream => 3 | ROk => 4 | RBlock => 5 end.
+Definition is_block (r : res) : bool := match r with RBlock => true | _ => false end.
 
 Definition decision_code (d : decision) : Z :=
   match d with DContinue => 0 | DKeepAlive => 1 | DHandshakeTimeout => 2 | DIdleTimeout => 3 end.
@@ -108,6 +136,19 @@ Definition model_obs (c : case) : obs :=
                (routing_after a)
     end
   | ClosedConnCase start replies => ClosedConnObs (closed_replies start (List.length replies))
+  | FanoutCase streams maps =>
+    let e := EApp true 23 in
+    FanoutObs
+      (map (fun t : Z * bool * Z * Z * Z * bool * Z * Z =>
+              let '(rs, _, _, _, ws, _, _, _) := t in
+              let r := rstream_of rs in let w := sstream_of ws in
+              let r' := r_closeForShutdown r e in let w' := s_closeForShutdown w e in
+              (is_block (r_read r), res_code (if is_block (r_read r) then r_read r' else r_read r), res_code (r_read r'),
+               is_block (s_write w), res_code (if is_block (s_write w) then s_write w' else s_write w), res_code (s_write w')))
+           streams)
+      (map (fun _ => res_code (api_call (fanout {| a_mapErr := None; a_dgErr := None; a_rstreams := []; a_sstreams := [];
+                                                    a_canOpen := false; a_canAccept := false; a_rcvQueued := false; a_sendRoom := true |} e)
+                                           CAcceptStream)) maps)
   | HistCase pre ops _ _ =>
     match replay (st_of pre) ops with
     | None => HistObs None
@@ -126,6 +167,12 @@ Definition model_obs (c : case) : obs :=
     EarlyExitObs (exit_routing true false false ce 0 1) (match exit_fanout ce with ENil => false | _ => true end)
   end.
 
+Fixpoint zs_eqb (a b : list Z) : bool :=
+  match a, b with
+  | [], [] => true
+  | x :: a', y :: b' => (x =? y) && zs_eqb a' b'
+  | _, _ => false
+  end.
 Definition pair_eqb (a b : Z * Z) : bool := (fst a =? fst b) && (snd a =? snd b).
 Fixpoint bools_eqb (a b : list bool) : bool :=
   match a, b with
@@ -152,6 +199,17 @@ Definition check_case (c : case) : bool :=
      | None, None => true
      | _, _ => false
      end)
+  | FanoutCase streams maps, FanoutObs ss ms =>
+    (fix go (a : list (Z * bool * Z * Z * Z * bool * Z * Z)) (b : list (bool * Z * Z * bool * Z * Z)) : bool :=
+       match a, b with
+       | [], [] => true
+       | (_, rp, rpre, rl, _, wp, wpre, wl) :: a', (rp', rpre', rl', wp', wpre', wl') :: b' =>
+         (* a call issued before the close: parked or not as the model says, and its result; -1: none was issued *)
+         ((rpre =? -1) || (Bool.eqb rp rp' && (rpre =? rpre'))) && (rl =? rl') &&
+         ((wpre =? -1) || (Bool.eqb wp wp' && (wpre =? wpre'))) && (wl =? wl') && go a' b'
+       | _, _ => false
+       end) streams ss &&
+    zs_eqb maps ms
   | HistCase _ _ post closed, HistObs (Some (lr, fa, ks, hs, idle, kai, cl)) =>
     (lr =? sn_lastRecv post) && (fa =? sn_firstAE post) && Bool.eqb ks (sn_kaSent post) && Bool.eqb hs (sn_hs post) &&
     (idle =? sn_idle post) && (kai =? sn_kai post) && (cl =? closed)
